@@ -23,6 +23,7 @@ func main() {
 	repo := flag.String("repo", "/repo", "repository to analyse")
 	verif := flag.String("verif", "", "verif dir (default: parent of the binary's dir or /verif)")
 	explain := flag.Bool("explain", false, "print every obligation")
+	dumpCallees := flag.Bool("dumpcallees", false, "print the table spec.PinnedCallees for -repo and exit")
 	flag.Parse()
 	debug.SetGCPercent(1000) // the loaded program is a large, long-lived heap; avoid rescanning it
 	if pf := os.Getenv("RTPCHECK_PROF"); pf != "" {
@@ -52,6 +53,16 @@ func main() {
 	ids := []string{*prop}
 	if *prop == "all" {
 		ids = props.IDs()
+	}
+	if *dumpCallees {
+		absRepo, _ := filepath.Abs(*repo)
+		prog, err := core.Load(absRepo)
+		if err != nil {
+			fmt.Fprintln(os.Stderr, err)
+			os.Exit(2)
+		}
+		props.DumpCallees(prog)
+		return
 	}
 	if *prop == "" {
 		fmt.Fprintln(os.Stderr, "usage: rtpcheck -prop Cxx [-tier quick|thorough]")
